@@ -109,10 +109,15 @@ func (v *varValidator) validateVarType(typ *ast.Type, val reflect.Value) (reflec
 		}
 		if val.Kind() != reflect.Slice {
 			// GraphQL spec says that non-null values should be coerced to an array when possible.
-			// Hence if the value is not a slice, we create a slice and add val to it.
-			slc := reflect.MakeSlice(reflect.SliceOf(val.Type()), 0, 0)
-			slc = reflect.Append(slc, val)
-			val = slc
+			// Hence if the value is not a slice, we create a slice and add val to it. The value is
+			// coerced as an item first: for nested lists that wraps it once per list level.
+			v.path = append(v.path, ast.PathIndex(0))
+			item, err := v.validateVarType(typ.Elem, val)
+			if err != nil {
+				return val, err
+			}
+			slc := reflect.MakeSlice(reflect.SliceOf(item.Type()), 0, 1)
+			return reflect.Append(slc, item), nil
 		}
 		for i := 0; i < val.Len(); i++ {
 			resetPath()
@@ -124,9 +129,21 @@ func (v *varValidator) validateVarType(typ *ast.Type, val reflect.Value) (reflec
 				}
 				field = field.Elem()
 			}
-			_, err := v.validateVarType(typ.Elem, field)
+			cval, err := v.validateVarType(typ.Elem, field)
 			if err != nil {
 				return val, err
+			}
+			// keep an item that was coerced (a single value standing for a list)
+			if cval.IsValid() && field.IsValid() && cval.Kind() == reflect.Slice {
+				if !cval.Type().AssignableTo(val.Type().Elem()) {
+					// a typed slice such as []int cannot hold the coerced item: continue with a []interface{} copy
+					generic := reflect.MakeSlice(reflect.TypeOf([]interface{}{}), val.Len(), val.Len())
+					for j := 0; j < val.Len(); j++ {
+						generic.Index(j).Set(val.Index(j))
+					}
+					val = generic
+				}
+				val.Index(i).Set(cval)
 			}
 		}
 		return val, nil
